@@ -1,2 +1,133 @@
--- stub: replaced by the component's line-protocol driver
-def main : IO Unit := pure ()
+import CelmaVerif.Base.Proto
+import CelmaVerif.Model.DynBitset
+/- line-protocol driver for the dynbitset component (C12); see harness/dyn_bitset.cpp for the protocol -/
+open CelmaVerif CelmaVerif.Proto
+open CelmaVerif.DynBitset (Bits)
+
+abbrev St := List (String × Bits)
+
+def St.get (s : St) (n : String) : Option Bits := (s.find? (·.1 == n)).map (·.2)
+def St.put (s : St) (n : String) (v : Bits) : St := (n, v) :: s.filter (·.1 != n)
+
+def bitsOut (v : Bits) : String :=
+  if v.isEmpty then "-" else String.ofList (v.map fun b => if b then '1' else '0')
+
+def bitsIn (s : String) : Option Bits :=
+  if s == "-" then some []
+  else s.toList.mapM fun c => if c == '1' then some true else if c == '0' then some false else none
+
+def b01 (b : Bool) : String := if b then "1" else "0"
+
+def excOut {α : Type} : Res α → String
+  | .ok _ => "ok"
+  | .throw e => s!"throw {e.name}"
+  | .oob w => s!"oob {w}"
+
+/-- the observation line of one bitset -/
+def stateOut (v : Bits) : String :=
+  match DynBitset.toStr v with
+  | .ok str =>
+    let ul := match DynBitset.toUlong v with
+      | .ok n => s!"{n}"
+      | .throw e => e.name
+      | .oob w => s!"oob:{w}"
+    s!"ok size={v.length} bits={bitsOut v} str={if str.isEmpty then "-" else String.ofList str} count={DynBitset.count v} any={b01 (DynBitset.anySet v)} none={b01 (DynBitset.noneSet v)} all={b01 (DynBitset.allSet v)} ulong={ul}"
+  | r => excOut r
+
+/-- numbers may be symbolic: `@size`, `@size-1` (0 when empty), `@size+1`, `@size*2`, `@size*3` -/
+def num (v : Bits) (t : String) : Option Nat :=
+  if t == "@size" then some v.length
+  else if t == "@size-1" then some (v.length - 1)
+  else if t == "@size+1" then some (v.length + 1)
+  else if t == "@size*2" then some (v.length * 2)
+  else if t == "@size*3" then some (v.length * 3)
+  else t.toNat?
+
+def boolTok (t : String) : Option Bool :=
+  if t == "1" then some true else if t == "0" then some false else none
+
+def posList (l : List Nat) : String :=
+  if l.isEmpty then "-" else String.intercalate "," (l.map fun n => s!"{n}")
+
+/-- a mutator result stored under `dst` -/
+def store (s : St) (dst : String) (r : Res Bits) : St × String :=
+  match r with
+  | .ok v => (s.put dst v, stateOut v)
+  | r => (s, excOut r)
+
+def step (s : St) (line : String) : St × String :=
+  match tokens line with
+  | ["case", _] => ([], "ok")
+  | ["dbs", "new", n, bits] =>
+    match bitsIn bits with
+    | some v => (s.put n v, stateOut v)
+    | none => (s, "bad-op")
+  | ["dbs", "newn", n, k] =>
+    match k.toNat? with
+    | some k => let v := DynBitset.ofSize k; (s.put n v, stateOut v)
+    | none => (s, "bad-op")
+  | "dbs" :: op :: n :: args =>
+    match s.get n with
+    | none => (s, "bad-op")
+    | some v =>
+      let pn (t : String) := num v t
+      match op, args with
+      | "obs", [] => (s, stateOut v)
+      | "setall", [] => store s n (DynBitset.setAll v)
+      | "resetall", [] => store s n (DynBitset.resetAll v)
+      | "flipall", [] => store s n (DynBitset.flipAll v)
+      | "set", [p, b] => match pn p, boolTok b with
+        | some p, some b => store s n (DynBitset.set v p b)
+        | _, _ => (s, "bad-op")
+      | "reset", [p] => match pn p with
+        | some p => store s n (DynBitset.reset v p)
+        | _ => (s, "bad-op")
+      | "flip", [p] => match pn p with
+        | some p => store s n (DynBitset.flip v p)
+        | _ => (s, "bad-op")
+      | "idxset", [p, b] => match pn p, boolTok b with
+        | some p, some b => store s n (DynBitset.idxAssign v p b)
+        | _, _ => (s, "bad-op")
+      | "idx", [p] => match pn p with
+        | some p => match DynBitset.idxRead v p with
+          | .ok (v', b) => (s.put n v', s!"ok val={b01 b} size={v'.length} bits={bitsOut v'}")
+          | r => (s, excOut r)
+        | _ => (s, "bad-op")
+      | "resize", [k, b] => match pn k, boolTok b with
+        | some k, some b => store s n (.ok (DynBitset.resize v k b))
+        | _, _ => (s, "bad-op")
+      | "test", [p] => match pn p with
+        | some p => match DynBitset.test v p with
+          | .ok b => (s, s!"ok {b01 b}")
+          | r => (s, excOut r)
+        | _ => (s, "bad-op")
+      | "cidx", [p] => match pn p with
+        | some p => match DynBitset.idxConst v p with
+          | .ok b => (s, s!"ok {b01 b}")
+          | r => (s, excOut r)
+        | _ => (s, "bad-op")
+      | "eq", [o] => match s.get o with
+        | some w => (s, s!"ok {b01 (DynBitset.eq v w)}")
+        | none => (s, "bad-op")
+      | "and=", [o] => match s.get o with | some w => store s n (DynBitset.andAssign v w) | none => (s, "bad-op")
+      | "or=", [o] => match s.get o with | some w => store s n (DynBitset.orAssign v w) | none => (s, "bad-op")
+      | "xor=", [o] => match s.get o with | some w => store s n (DynBitset.xorAssign v w) | none => (s, "bad-op")
+      | "and", [o, d] => match s.get o with | some w => store s d (DynBitset.bitAnd v w) | none => (s, "bad-op")
+      | "or", [o, d] => match s.get o with | some w => store s d (DynBitset.bitOr v w) | none => (s, "bad-op")
+      | "xor", [o, d] => match s.get o with | some w => store s d (DynBitset.bitXor v w) | none => (s, "bad-op")
+      | "not", [d] => store s d (DynBitset.bitNot v)
+      | "copy", [d] => store s d (.ok v)
+      | "shl=", [k] => match pn k with | some k => store s n (DynBitset.shlAssign v k) | none => (s, "bad-op")
+      | "shr=", [k] => match pn k with | some k => store s n (DynBitset.shrAssign v k) | none => (s, "bad-op")
+      | "shl", [k, d] => match pn k with | some k => store s d (DynBitset.shl v k) | none => (s, "bad-op")
+      | "shr", [k, d] => match pn k with | some k => store s d (DynBitset.shr v k) | none => (s, "bad-op")
+      | "fwd", [] => match DynBitset.iterate v with
+        | .ok l => (s, s!"ok {posList l}")
+        | r => (s, excOut r)
+      | "rev", [] => match DynBitset.riterate v with
+        | .ok l => (s, s!"ok {posList l}")
+        | r => (s, excOut r)
+      | _, _ => (s, "bad-op")
+  | _ => (s, "bad-op")
+
+def main : IO Unit := run ([] : St) step
